@@ -71,6 +71,10 @@ CHECKS = {
  'C18': dict(cat='model_checking', technique='exhaustive value enumeration and explicit-state exploration of all handle operation sequences up to a depth bound, executed against the real matlab.h compiled (ASan/UBSan) on a mock MEX API',
              text='The real matlab.h is compiled against a mock MEX API: every bool, every char and unsigned char, every int in [-65536,65536] plus boundaries, boundary sets of size_t and double (bitwise), every string of length <=3 (4) over {a, space, newline, quote, 0xFF, NUL}, Vector lengths 0..4 and Matrix shapes 0..3x0..3 (shape and column-major positions), Points and enums must round-trip; every scalar unwrap on non-scalar shapes and every Vector/Matrix/Point/string unwrap on non-double / non-char classes or wrong column counts must raise; all 111110 (1.1M) sequences of <=5 (6) handle operations (wrap virtual/non-virtual, drop owner, delete handle, unwrap_shared_ptr, unwrap_ptr) on 2 objects keep: a handle designates its object, an object lives exactly as long as a handle or owner exists, nothing is alive after tear-down; no sanitizer report.',
              note='Mock MEX API stands for MATLAB; little-endian LP64; the MATLAB-side constructor is hand-written in the driver.', ref='2/C18'),
+
+ 'C11': dict(cat='model_checking', technique='explicit-state breadth-first exploration of MATLAB session histories: each history is replayed on a fresh process holding the real generated gateway + real matlab.h (ASan/UBSan) on a mock MEX API, driven only through the generated .m files executed by a mini-MATLAB interpreter; ownership/trace invariants checked in every state against a reference ownership model',
+             text='All session histories of length <=5 (6) over: every constructor arity, methods/statics/functions with arguments from the live handles and {1,2}, object returns by value / shared pointer / pair / aliasing an already-wrapped object / Derived behind a Base handle, raw-pointer and enum arguments, property get/set, delete of any handle, unload -- with at most 3 live handles, successors expanded from each new canonical ownership state. After every step: the library call trace shows exactly the declared entity with the supplied values and MATLAB receives its result; every handle designates the object the model says (probed through the gateway); each collector size equals the number of live handles whose class chain contains the class; live library objects equal the objects reachable from live handles, none after unload; no MATLAB-side error, no sanitizer report.',
+             note='mini-MATLAB interpreter and mock MEX API stand for MATLAB; one toolbox (inheritance chain, aliasing keeper, enums, statics, free functions, property) with a hand-written instrumented library as reference semantics.', ref='2/C11'),
 }
 NOT_YET = 'check not built yet in this session (see DESIGN.md for the planned exhaustive exploration)'
 
